@@ -60,6 +60,9 @@ type DkgScenario struct {
 	StormMs      int `json:"storm_ms"`
 	StormWorkers int `json:"storm_workers"`
 	// ConcGens: generations requested AT THE SAME TIME of (possibly different) instances of the cluster (DkgConc.tla)
+	// FaultyGRPC (with -dirk): two instances are real binaries, the third is a harness-served participant reached over real gRPC whose
+	// contribution replies carry the fault Faults[0].Kind (RunRemoteFaultyDkg)
+	FaultyGRPC bool `json:"faulty_grpc"`
 	ConcGens []ConcGen `json:"conc_gens"`
 	JitterUs int       `json:"jitter_us"` // every message between instances is delayed by a random time below this (seeded per scenario id)
 }
